@@ -32,6 +32,12 @@ def run(tier):
         plist.append({"name": "history/%d" % i, "steps": steps, "mods": mods})
     loads_seen = {}
 
+    from ..gen import feat_fiber as _ff
+    rxf = ck.rng.fork("xmodfib")
+    for i in range(250 if quick else 8000):
+        _src, _mods = _ff.xmod_fiber_program(rxf.fork(str(i)))
+        plist.append({"name": "xmodfiber/%d" % i, "steps": [("snip", _src)], "mods": _mods})
+
     def seen(p, m, res):
         v = m["view"][0]
         bodies = [t for st in m["view"] for t in st.get("out", []) if t.startswith("body of ")]
